@@ -52,7 +52,10 @@ def main():
         print("MACHINERY-ERROR no check for property %s (%s)" % (args.prop, e))
         sys.exit(3)
     if args.replay:
-        sys.exit(runner.replay(mod, args.prop, args.replay))
+        rc = runner.replay(mod, args.prop, args.replay)
+        sys.stdout.flush()
+        sys.stderr.flush()
+        os._exit(rc)
     try:
         code = runner.run_property(mod, args.prop, args.tier, seed, build, t0, skip_d=args.no_d, skip_b=args.no_b, only=args.only)
     except SystemExit:
@@ -61,7 +64,11 @@ def main():
         traceback.print_exc()
         print("MACHINERY-ERROR unexpected exception in the check driver")
         code = 3
-    sys.exit(code)
+    # leave without running interpreter teardown: z3's Python objects (contexts, cached ASTs) and the compiled whatshap/pysam modules have been seen to crash
+    # during finalisation (exit status -11 after a complete, correct run); everything is flushed and written at this point
+    sys.stdout.flush()
+    sys.stderr.flush()
+    os._exit(code)
 
 
 if __name__ == "__main__":
